@@ -449,7 +449,7 @@ def demanded(ell, r, fx, fy, slack=0.0):
     thr = min(0.0, r)
     if ell == -math.inf:
         return 1
-    if abs(ell - thr) <= 1e-9 * (1.0 + abs(thr)) + slack:
+    if abs(ell - thr) <= 1e-8 * (1.0 + abs(thr)) + 10 * slack:        # silent zone: >= 1e7 x the rounding noise of the ratio
         return None
     return 1 if ell <= thr else 0
 
@@ -1003,7 +1003,7 @@ def oracle(ctx, t, stats):
         if rr is not None and ell != -math.inf and rr[0] == rr[0] and abs(rr[0]) != math.inf:
             # distance of the uniform from the true threshold relative to the "too close to call" band (must be > 1)
             thr_ = min(0.0, rr[0])
-            band_ = 1e-9 * (1.0 + abs(thr_)) + 1e-12 * getattr(t, "cond", 0.0)
+            band_ = 1e-9 * (1.0 + abs(thr_)) + 1e-12 * getattr(t, "cond", 0.0)       # a tenth of the silent zone of `demanded`: judged decisions are >= 10
             stats["margin:decision:min_dist_over_band"] = min(stats.get("margin:decision:min_dist_over_band", math.inf), abs(ell - thr_) / band_)
     if cache_true == cache_true and abs(cache_true) != math.inf and t.logd == t.logd and abs(t.logd) != math.inf:
         stats["margin:stale-cache:max_dev_over_tol"] = max(stats.get("margin:stale-cache:max_dev_over_tol", 0.0),
@@ -1300,7 +1300,7 @@ def run(ctx):
                     "np.log / np.sqrt (their float results are handed to the model as data; sqrt certified by c*c ~ v)",
                     "harness recorders (call-through wrappers of target.logd/gradient, prior.sample, single_update)"]
     ctx.assumptions += ["model arithmetic is exact; implementation floats compared with tolerance 1e-12 (exact on dyadic scenarios)",
-                        "uniform draws are placed >= 1e-6 (relative) away from the true threshold, so rounding cannot flip a decision",
+                        "decisions whose log-uniform lies within 1e-8*(1+|threshold|) (+ conditioning slack) of the true threshold are not judged, so rounding cannot flip a judged decision",
                         "gradients handed to MALA are finite"]
     stats = {}
     refusals(ctx, cuqi)
